@@ -97,6 +97,8 @@ pub fn setup(b: HB, prior: Option<&[u8]>) -> Live {
 pub enum RStep {
     Read(usize),
     Seek(SeekFrom),
+    /// `Read::read_to_end` on the same handle (whatever is left from the current position)
+    ReadToEnd,
 }
 
 pub fn reader_steps(len: i64) -> Vec<RStep> {
@@ -117,6 +119,7 @@ pub fn reader_steps(len: i64) -> Vec<RStep> {
         RStep::Seek(SeekFrom::End(-1)),
         RStep::Seek(SeekFrom::End(0)),
         RStep::Seek(SeekFrom::End(2)),
+        RStep::ReadToEnd,
     ]
 }
 
@@ -164,6 +167,14 @@ fn do_rstep<T: Read + Seek + ?Sized>(h: &mut T, s: &RStep) -> StepRes {
             Ok(pos) => StepRes::Pos(pos),
             Err(_) => StepRes::Err,
         },
+        RStep::ReadToEnd => {
+            let mut v = Vec::new();
+            match h.read_to_end(&mut v) {
+                Ok(k) if k == v.len() => StepRes::Read(v),
+                Ok(k) => StepRes::Panic(format!("read_to_end returned {} but appended {} bytes", k, v.len())),
+                Err(_) => StepRes::Err,
+            }
+        }
     }) {
         Ok(r) => r,
         Err(m) => StepRes::Panic(m),
@@ -190,6 +201,7 @@ fn step_name(s: &RStep) -> String {
         RStep::Seek(SeekFrom::Start(_)) => "seek(Start)".into(),
         RStep::Seek(SeekFrom::Current(o)) => format!("seek(Current{})", if *o < 0 { "-" } else { "+" }),
         RStep::Seek(SeekFrom::End(o)) => format!("seek(End{})", if *o < 0 { "-" } else if *o == 0 { "0" } else { "+" }),
+        RStep::ReadToEnd => "read_to_end".into(),
     }
 }
 
@@ -539,6 +551,41 @@ pub fn lengths_and_buffers(property: &str, backends: &[HB], lens: &[usize], bufs
                         Ok(Err(e)) => vio.push(mk(&format!("{}-read-error", what), format!("reading {} with a {} byte buffer failed: {}", what, bs, e))),
                         Err(m) => vio.push(mk(&format!("{}-read-panic", what), format!("reading {} with a {} byte buffer panicked: {}", what, bs, m))),
                     }
+                }
+                // other ways of reading a whole file: a prefix with read()/read_exact, a BufReader line,
+                // then read_to_end on the same handle
+                for prefix in [1usize, 5, 8192] {
+                    evals += 1;
+                    let r = guard(|| -> Result<Vec<u8>, String> {
+                        let mut f = p.open_file().map_err(|e| e.to_string())?;
+                        let k = prefix.min(want.len());
+                        let mut head = vec![0u8; k];
+                        f.read_exact(&mut head).map_err(|e| e.to_string())?;
+                        let mut rest = vec![];
+                        f.read_to_end(&mut rest).map_err(|e| e.to_string())?;
+                        head.extend(rest);
+                        Ok(head)
+                    });
+                    match r {
+                        Ok(Ok(g)) if g == want => {}
+                        other => vio.push(mk(&format!("{}-read_exact-then-read_to_end", what), format!("read_exact({}) then read_to_end of {}: {:?}", prefix, what, other.map(|r| r.map(|g| g.len()))))),
+                    }
+                }
+                evals += 1;
+                let r = guard(|| -> Result<Vec<u8>, String> {
+                    use std::io::BufRead;
+                    let f = p.open_file().map_err(|e| e.to_string())?;
+                    let mut br = std::io::BufReader::new(f);
+                    let mut line = vec![];
+                    br.read_until(b'\n', &mut line).map_err(|e| e.to_string())?;
+                    let mut rest = vec![];
+                    br.read_to_end(&mut rest).map_err(|e| e.to_string())?;
+                    line.extend(rest);
+                    Ok(line)
+                });
+                match r {
+                    Ok(Ok(g)) if g == want => {}
+                    other => vio.push(mk(&format!("{}-bufreader-line-then-read_to_end", what), format!("BufReader read_until then read_to_end of {}: {:?}", what, other.map(|r| r.map(|g| g.len()))))),
                 }
                 evals += 1;
                 match guard(|| (PathApi::read_all(p), PathApi::metadata(p))) {
